@@ -264,8 +264,8 @@ class Repetition:
 
             new_match_set: MatchSet = set()
             for match in sorted_by_longest_match(last_match_set):
-                g = self.element.lparse(source, match.start)
                 try:  # noqa: SIM105
+                    g = self.element.lparse(source, match.start)
                     new_match_set.update(
                         [Match(match.nodes + m.nodes, m.start) for m in g]
                     )
